@@ -160,6 +160,24 @@ func checkCall(c Case) *vk.Failure {
 	if again := render(raw1); again != r1 {
 		return vk.Failf("result-changed-after-return", "the result of %s(%s) was %s when it was returned and reads %s after %d other calls (it aliases memory the library reuses)", cl.Fn, argStr(cl), clip(r1), clip(again), len(c.Batch))
 	}
+	// the result must not depend on memory outside the arguments: the same call right after the
+	// stack area it will use was overwritten with zeros, and with ones (this is the situation in which
+	// StrCmpUpto's missing capacity word made it panic)
+	for _, v := range []byte{0x00, 0xff} {
+		var rd string
+		var fd *vk.Failure
+		func() {
+			dirtyStack(v)
+			rd, fd = runCall(cl.Fn, fn1)
+		}()
+		if fd != nil {
+			fd.Msg = fmt.Sprintf("after the stack had been filled with %#x: %s", v, fd.Msg)
+			return fd
+		}
+		if rd != r1 {
+			return vk.Failf("result-depends-on-stack-garbage", "%s(%s) returned %s, but %s when called right after the stack had been filled with %#x", cl.Fn, argStr(cl), clip(r1), clip(rd), v)
+		}
+	}
 	// same live arguments again, then relocated copies
 	r2, f := runCall(cl.Fn, fn1)
 	if f != nil {
@@ -190,6 +208,19 @@ func checkCall(c Case) *vk.Failure {
 		return vk.Failf("table-modified", "a package table changed during the batch after %s: %s", cl.Fn, t)
 	}
 	return nil
+}
+
+var sinkByte byte
+
+// dirtyStack overwrites the stack area below the caller's frame with v.
+//
+//go:noinline
+func dirtyStack(v byte) {
+	var buf [2048]byte
+	for i := range buf {
+		buf[i] = v
+	}
+	sinkByte = buf[int(v)+17]
 }
 
 func clip(s string) string {
